@@ -135,31 +135,35 @@ def arg_matcher_variants(cls, legal_only=True):
 def _pick(draw, seq):
     return draw(st.sampled_from(list(seq)))
 
+def _rare(draw, n):
+    """True with probability 1/(n+1); the simplest draw (what Hypothesis shrinks towards) is False"""
+    return draw(st.sampled_from(range(n + 1))) == n
+
 def _terminal(draw, kind):
     """[] or [clause]: what a legal expectation on this kind needs at least"""
     K = KINDS[kind]
-    if K.ret == "void" and draw(st.integers(0, 3)) != 0:
+    if K.ret == "void" and not _rare(draw, 3):
         return []
     return [_pick(draw, legal_terminals(kind))]
 
 def _legal_opts(draw, kind, family):
     o = {}
-    if draw(st.integers(0, 4)) == 0:
+    if _rare(draw, 4):
         o["const_mock"] = True
-    dw = family in DESTRUCTION_FAMILIES or draw(st.integers(0, 7)) == 0
+    dw = family in DESTRUCTION_FAMILIES or _rare(draw, 7)
     if dw:
         o["deathwatched"] = True
         o["virtual_dtor"] = True
     else:
-        if draw(st.integers(0, 5)) == 0:
+        if _rare(draw, 5):
             o["virtual_dtor"] = True
-        if draw(st.integers(0, 3)) == 0:
+        if _rare(draw, 3):
             o["movable"] = True
             if draw(st.booleans()):
                 o["move"] = True
-    if arity(kind) and draw(st.integers(0, 1)) == 1:
+    if arity(kind) and _rare(draw, 1):
         o["argm"] = tuple(_pick(draw, arg_matcher_variants(c)) for c in KINDS[kind].params)
-    if draw(st.integers(0, 6)) == 0:
+    if _rare(draw, 7):
         o["long_macros"] = True
     return o
 
@@ -174,12 +178,12 @@ def legal_programs(draw):
     base = rules.family_base(family)
     items = [_pick(draw, with_variants(kind)) for _ in range(draw(st.integers(0, 2)))]
     zero = base == "FORBID_CALL"
-    if base == "REQUIRE_CALL" and draw(st.integers(0, 6)) == 0:
+    if base == "REQUIRE_CALL" and _rare(draw, 6):
         zero = True
         items.append(("TIMES", _pick(draw, TIMES_ZERO)))
     if not zero:
         items += [_pick(draw, side_variants(kind)) for _ in range(draw(st.integers(0, 2)))]
-        if draw(st.integers(0, 2)) == 0:
+        if _rare(draw, 2):
             items.append(_pick(draw, seq_clauses()))
         if base == "REQUIRE_CALL":
             c = draw(st.integers(0, 3))
@@ -268,7 +272,7 @@ def _core(draw, row):
         return kind, P(FORBID), [tzero()], opts
     if row == "R17":
         kind = P(ALLK)
-        if draw(st.integers(0, 2)) == 0:
+        if _rare(draw, 2):
             return kind, P(REQ), [("TIMES", P(TIMES_INVERTED_ZERO))], opts
         return kind, P(REQ), [("TIMES", P(TIMES_INVERTED_POS))] + _terminal_always(draw, kind), opts
     if row == "R18a":
@@ -290,7 +294,7 @@ def _core(draw, row):
         return kind, P(FORBID), [rt()] + _terminal_always(draw, kind), opts
     if row == "R20":
         kind = P(ALLK)
-        if draw(st.integers(0, 2)) == 0:
+        if _rare(draw, 2):
             return kind, P(DESTRUCTION_FAMILIES), [seq(), seq()], dict(deathwatched=True, virtual_dtor=True)
         return kind, P(RA), [seq(), seq()] + _terminal_always(draw, kind), opts
     if row == "R21":
@@ -332,7 +336,7 @@ def _core(draw, row):
         kind = P(ALLK); return kind, P(RA), _terminal_always(draw, kind), dict(move=True)
     if row == "R30":
         kind = P(ALLK)
-        if draw(st.integers(0, 2)) == 0:
+        if _rare(draw, 2):
             return kind, P(DESTRUCTION_FAMILIES), ([seq()] if draw(st.booleans()) else []), dict(deathwatched=True)
         return kind, P(RA), _terminal_always(draw, kind), dict(deathwatched=True)
     if row == "R32":
@@ -341,7 +345,7 @@ def _core(draw, row):
 
 def _terminal_always(draw, kind):
     if KINDS[kind].ret == "void":
-        return [_pick(draw, throw_variants())] if draw(st.integers(0, 3)) == 0 else []
+        return [_pick(draw, throw_variants())] if _rare(draw, 3) else []
     return [_pick(draw, legal_terminals(kind))]
 
 def padding_clauses(kind):
@@ -369,7 +373,7 @@ def single_fault(row):
                 g = evaluate(q)
                 if len(g) == 1 and g[0].row == row:
                     clauses, p = cand, q
-        if draw(st.integers(0, 6)) == 0:
+        if _rare(draw, 7):
             o = dict(p.opts); o["long_macros"] = True
             p = make_program(p.kind, p.family, list(p.clauses), **o)
         return p
@@ -386,13 +390,13 @@ def all_clauses(kind, coroutine_ops):
 @st.composite
 def free_programs(draw):
     kind = _pick(draw, ALLK)
-    if draw(st.integers(0, 11)) == 0:
+    if _rare(draw, 11):
         family = _pick(draw, DESTRUCTION_FAMILIES)
         clauses = [_pick(draw, seq_clauses()) for _ in range(draw(st.integers(0, 3)))]
-        opts = dict(deathwatched=True, virtual_dtor=draw(st.integers(0, 4)) != 0)
+        opts = dict(deathwatched=True, virtual_dtor=not _rare(draw, 4))
         return make_program(kind, family, clauses, **opts)
     family = _pick(draw, CALL_FAMILIES)
-    co_ops = bool(KINDS[kind].coro) or draw(st.integers(0, 4)) == 0
+    co_ops = bool(KINDS[kind].coro) or _rare(draw, 4)
     alphabet = all_clauses(kind, co_ops)
     ops = sorted({c[0] for c in alphabet})
     clauses = []
@@ -400,14 +404,14 @@ def free_programs(draw):
         op = _pick(draw, ops)                                  # clause kind first, so that rare spellings are not drowned
         clauses.append(_pick(draw, [c for c in alphabet if c[0] == op]))
     opts = {}
-    if draw(st.integers(0, 3)) == 0:
+    if _rare(draw, 3):
         opts = _legal_opts(draw, kind, family)
-    if draw(st.integers(0, 9)) == 0:
+    if _rare(draw, 9):
         n = arity(kind)
         opts["mock_n"] = _pick(draw, [x for x in (n - 1, n + 1, 0, 15) if 0 <= x <= 15 and x != n])
-    if draw(st.integers(0, 11)) == 0 and not opts.get("deathwatched"):
+    if _rare(draw, 11) and not opts.get("deathwatched"):
         opts["move"] = True
-    if draw(st.integers(0, 11)) == 0 and not opts.get("move"):
+    if _rare(draw, 11) and not opts.get("move"):
         opts["deathwatched"] = True
         opts["virtual_dtor"] = draw(st.booleans())
     return make_program(kind, family, clauses, **opts)
